@@ -33,6 +33,7 @@ Case(l, body) == [label |-> l, body |-> body]
 Def(pos, body) == [k |-> "def", pos |-> pos, body |-> body]
 WProp(o, p, e) == [k |-> "wprop", o |-> o, p |-> p, e |-> e]
 MCall(o, m, args) == [k |-> "mcall", o |-> o, m |-> m, args |-> args]
+LetC(n, o, m, args) == [k |-> "letc", n |-> n, o |-> o, m |-> m, args |-> args]
 Log(lv, args) == [k |-> "log", lv |-> lv, args |-> args]
 RetVS(x) == [k |-> "retv"]
 
